@@ -447,6 +447,14 @@ func runC11(c *core.Ctx) {
 			case 7: // two loops in sequence: counters restart
 				body = []gen.Node{gen.Cycle{HasGroup: true, Group: "g2", Vals: []string{"p", "q"}}}
 			}
+			if L%2 == 1 && variant < 3 {
+				// two tags of one group (named / unnamed) with value lists of different length share one position
+				grp := variant == 1
+				body = []gen.Node{gen.Cycle{HasGroup: grp, Group: "g", Vals: []string{"a", "b"}}, gen.Cycle{HasGroup: grp, Group: "g", Vals: []string{"x", "y", "z"}}, gen.Text{S: " "}}
+				if variant == 2 {
+					body = append(body, gen.Cycle{Vals: []string{"1", "2", "3", "4"}})
+				}
+			}
 			prog := []gen.Node{gen.For{Var: "i", Coll: gen.RangeE{A: intLit(1), B: intLit(L)}, Body: body}}
 			if variant == 7 {
 				prog = append(prog, gen.Text{S: "|"}, gen.For{Var: "i", Coll: gen.RangeE{A: intLit(1), B: intLit(3)}, Body: body})
@@ -522,7 +530,7 @@ func c11Grid(c *core.Ctx, e *liquid.Engine, m *ref.Model, r *core.Rand, idx, L, 
 		b["coll"] = g
 	}
 	modVar := idx%2 == 0 // modifiers as variables or as literals
-	f := gen.For{Var: "x", Coll: coll, Reversed: rev, Body: traceBody(gen.Var{Name: "x"})}
+	f := gen.For{Var: "x", Coll: coll, Reversed: rev, Body: traceBody(gen.Var{Name: "x"}), ModOrder: idx % 8}
 	if off != -100 {
 		f.Offset = intLit(off)
 		if modVar {
